@@ -10,6 +10,7 @@
 package main
 
 import (
+	"encoding/hex"
 	"encoding/json"
 	"fmt"
 	"sort"
@@ -39,16 +40,24 @@ const (
 // reference model
 
 type model struct {
-	Appr   map[string][]string // (action,request) -> approvers since the last effect ("same action and request" by id)
-	Inst   map[string][]string // same, but reset whenever the request object is created / replaced / withdrawn
-	Status map[string]int      // account name -> pool status (absent: not in the pool)
-	Views  int                 // number of validator-set changes so far
+	// approvers of a (action, request id) since its last effect ...
+	Inst   map[string][]string            // ... given since the stored request object last changed (filed / replaced / withdrawn): these MUST count
+	Cont   map[string]map[string][]string // ... per content of the stored request object at approval time: those for the current content MAY count
+	Appr   map[string][]string            // ... regardless of the request object (only used to name a violation)
+	Status map[string]int                 // account name -> pool status (absent: not in the pool)
+	Views  int                            // number of validator-set changes so far
 }
 
 func (m model) clone() model {
-	n := model{Appr: map[string][]string{}, Inst: map[string][]string{}, Status: map[string]int{}, Views: m.Views}
+	n := model{Appr: map[string][]string{}, Inst: map[string][]string{}, Cont: map[string]map[string][]string{}, Status: map[string]int{}, Views: m.Views}
 	for k, v := range m.Appr {
 		n.Appr[k] = append([]string{}, v...)
+	}
+	for k, v := range m.Cont {
+		n.Cont[k] = map[string][]string{}
+		for c, l := range v {
+			n.Cont[k][c] = append([]string{}, l...)
+		}
 	}
 	for k, v := range m.Inst {
 		n.Inst[k] = append([]string{}, v...)
@@ -144,6 +153,7 @@ type pair struct {
 	approvers  []string
 	notify     string
 	signKey    string
+	reqKey     string // store key of the pending request object ("" = the action has none: black / white listing)
 	applied    func(before, after map[string]string) bool
 	allowed    func(k string) bool
 	onEffect   func(m *model)
@@ -187,7 +197,7 @@ func (e *env) pCand(who string) *pair {
 	pk := e.a(who).PubHex
 	return &pair{name: "approveCandidate(" + who + ")", site: "approveCandidate", contract: gov.NM, method: node_manager.APPROVE_CANDIDATE,
 		args: func(s common.Address) []byte { return gov.Peer(pk, s) }, notify: "approveCandidate",
-		signKey: gov.SignKey(node_manager.APPROVE_CANDIDATE, []byte(pk)),
+		signKey: gov.SignKey(node_manager.APPROVE_CANDIDATE, []byte(pk)), reqKey: gov.KeyPeerApply(pk),
 		applied: func(b, a map[string]string) bool {
 			_, pool := gov.Pool(a)
 			st, in := pool[pk]
@@ -247,7 +257,7 @@ func (e *env) pWhite(who string) *pair {
 func (e *env) pScReg(id uint64) *pair {
 	return &pair{name: fmt.Sprintf("approveRegisterSideChain(%d)", id), site: "approveRegisterSideChain", contract: gov.SCM,
 		method: side_chain_manager.APPROVE_REGISTER_SIDE_CHAIN, args: func(s common.Address) []byte { return gov.ChainID(id, s) },
-		notify: "ApproveRegisterSideChain", signKey: gov.SignKey(side_chain_manager.APPROVE_REGISTER_SIDE_CHAIN, gov.U64(id)),
+		notify: "ApproveRegisterSideChain", signKey: gov.SignKey(side_chain_manager.APPROVE_REGISTER_SIDE_CHAIN, gov.U64(id)), reqKey: gov.KeySideChainApply(id),
 		applied: func(b, a map[string]string) bool {
 			_, pend := a[gov.KeySideChainApply(id)]
 			return !pend && a[gov.KeySideChain(id)] != "" && a[gov.KeySideChain(id)] == b[gov.KeySideChainApply(id)]
@@ -258,7 +268,7 @@ func (e *env) pScReg(id uint64) *pair {
 func (e *env) pScUpd(id uint64) *pair {
 	return &pair{name: fmt.Sprintf("approveUpdateSideChain(%d)", id), site: "approveUpdateSideChain", contract: gov.SCM,
 		method: side_chain_manager.APPROVE_UPDATE_SIDE_CHAIN, args: func(s common.Address) []byte { return gov.ChainID(id, s) },
-		notify: "ApproveUpdateSideChain", signKey: gov.SignKey(side_chain_manager.APPROVE_UPDATE_SIDE_CHAIN, gov.U64(id)),
+		notify: "ApproveUpdateSideChain", signKey: gov.SignKey(side_chain_manager.APPROVE_UPDATE_SIDE_CHAIN, gov.U64(id)), reqKey: gov.KeySideChainUpdate(id),
 		applied: func(b, a map[string]string) bool {
 			_, pend := a[gov.KeySideChainUpdate(id)]
 			return !pend && a[gov.KeySideChain(id)] != "" && a[gov.KeySideChain(id)] == b[gov.KeySideChainUpdate(id)]
@@ -269,7 +279,7 @@ func (e *env) pScUpd(id uint64) *pair {
 func (e *env) pScQuit(id uint64) *pair {
 	return &pair{name: fmt.Sprintf("approveQuitSideChain(%d)", id), site: "approveQuitSideChain", contract: gov.SCM,
 		method: side_chain_manager.APPROVE_QUIT_SIDE_CHAIN, args: func(s common.Address) []byte { return gov.ChainID(id, s) },
-		notify: "ApproveQuitSideChain", signKey: gov.SignKey(side_chain_manager.QUIT_SIDE_CHAIN, gov.U64(id)),
+		notify: "ApproveQuitSideChain", signKey: gov.SignKey(side_chain_manager.QUIT_SIDE_CHAIN, gov.U64(id)), reqKey: gov.KeySideChainQuit(id),
 		applied: func(b, a map[string]string) bool { _, ok := a[gov.KeySideChain(id)]; return !ok },
 		allowed: inSet(gov.KeySideChain(id), gov.KeySideChainQuit(id))}
 }
@@ -281,7 +291,7 @@ func (e *env) pRelReg(id uint64, list ...string) *pair {
 	}
 	return &pair{name: fmt.Sprintf("approveRegisterRelayer(%d)", id), site: "approveRegisterRelayer", contract: gov.RM,
 		method: relayer_manager.APPROVE_REGISTER_RELAYER, args: func(s common.Address) []byte { return gov.ApproveRelayer(id, s) },
-		notify: "ApproveRegisterRelayer", signKey: gov.SignKey(relayer_manager.APPROVE_REGISTER_RELAYER, gov.U64(id)),
+		notify: "ApproveRegisterRelayer", signKey: gov.SignKey(relayer_manager.APPROVE_REGISTER_RELAYER, gov.U64(id)), reqKey: gov.KeyRelayerApply(id),
 		applied: func(b, a map[string]string) bool {
 			for _, k := range keys[1:] {
 				if _, ok := a[k]; !ok {
@@ -301,7 +311,7 @@ func (e *env) pRelRem(id uint64, list ...string) *pair {
 	}
 	return &pair{name: fmt.Sprintf("approveRemoveRelayer(%d)", id), site: "approveRemoveRelayer", contract: gov.RM,
 		method: relayer_manager.APPROVE_REMOVE_RELAYER, args: func(s common.Address) []byte { return gov.ApproveRelayer(id, s) },
-		notify: "ApproveRemoveRelayer", signKey: gov.SignKey(relayer_manager.APPROVE_REMOVE_RELAYER, gov.U64(id)),
+		notify: "ApproveRemoveRelayer", signKey: gov.SignKey(relayer_manager.APPROVE_REMOVE_RELAYER, gov.U64(id)), reqKey: gov.KeyRelayerRemove(id),
 		applied: func(b, a map[string]string) bool {
 			for _, k := range keys[1:] {
 				if _, ok := a[k]; ok {
@@ -325,7 +335,7 @@ func has(l []string, x string) bool {
 func (e *env) pSvReg(id uint64, list ...string) *pair {
 	return &pair{name: fmt.Sprintf("approveRegisterStateValidator(%d)", id), site: "approveRegisterStateValidator", contract: gov.SVM,
 		method: neo3_state_manager.APPROVE_REGISTER_STATE_VALIDATOR, args: func(s common.Address) []byte { return gov.ApproveSV(id, s) },
-		notify: "ApproveRegisterStateValidator", signKey: gov.SignKey(neo3_state_manager.APPROVE_REGISTER_STATE_VALIDATOR, gov.U64(id)),
+		notify: "ApproveRegisterStateValidator", signKey: gov.SignKey(neo3_state_manager.APPROVE_REGISTER_STATE_VALIDATOR, gov.U64(id)), reqKey: gov.KeySVApply(id),
 		applied: func(b, a map[string]string) bool {
 			cur := gov.SVs(a)
 			for _, s := range list {
@@ -342,7 +352,7 @@ func (e *env) pSvReg(id uint64, list ...string) *pair {
 func (e *env) pSvRem(id uint64, list ...string) *pair {
 	return &pair{name: fmt.Sprintf("approveRemoveStateValidator(%d)", id), site: "approveRemoveStateValidator", contract: gov.SVM,
 		method: neo3_state_manager.APPROVE_REMOVE_STATE_VALIDATOR, args: func(s common.Address) []byte { return gov.ApproveSV(id, s) },
-		notify: "ApproveRemoveStateValidator", signKey: gov.SignKey(neo3_state_manager.APPROVE_REMOVE_STATE_VALIDATOR, gov.U64(id)),
+		notify: "ApproveRemoveStateValidator", signKey: gov.SignKey(neo3_state_manager.APPROVE_REMOVE_STATE_VALIDATOR, gov.U64(id)), reqKey: gov.KeySVRemove(id),
 		applied: func(b, a map[string]string) bool {
 			cur := gov.SVs(a)
 			for _, s := range list {
@@ -662,9 +672,7 @@ func (x *explorer) step(s state, evn string) (state, bool) {
 			return state{D: d2, M: nm, last: vs}, true
 		}
 		r.Class("request-accepted")
-		for _, p := range ex.resets {
-			delete(nm.Inst, p)
-		}
+		x.requestObjectsChanged(&nm, s.D.Map(), d2.Map())
 		return state{D: d2, M: nm, last: vs}, true
 	}
 	p := x.pm[parts[1]]
@@ -686,13 +694,20 @@ func (x *explorer) step(s state, evn string) (state, bool) {
 		return state{D: d2, M: nm, last: vs}, true
 	}
 	// accepted approval: reference bookkeeping, evaluated against the validator set at this moment
+	before, after := s.D.Map(), d2.Map()
+	content := before[p.reqKey] // "" when the action has no request object or the object does not exist (yet)
 	nm.Appr[p.name] = add(nm.Appr[p.name], who)
 	nm.Inst[p.name] = add(nm.Inst[p.name], who)
+	if nm.Cont[p.name] == nil {
+		nm.Cont[p.name] = map[string][]string{}
+	}
+	ck := hex.EncodeToString([]byte(content))
+	nm.Cont[p.name][ck] = add(nm.Cont[p.name][ck], who)
 	cons := nm.consensus()
 	q := gov.Quorum(len(cons))
-	cnt := countIn(nm.Appr[p.name], cons)
-	cntInst := countIn(nm.Inst[p.name], cons)
-	expect := cnt >= q
+	must := countIn(nm.Inst[p.name], cons)    // approvals of exactly this filing of the request
+	may := countIn(nm.Cont[p.name][ck], cons) // + approvals of earlier filings with identical content
+	byID := countIn(nm.Appr[p.name], cons)    // + approvals of anything that carried this request id
 	var nonSign []string
 	for _, k := range changed { // approval bookkeeping records (whatever their key derivation) are not "effect"
 		if !gov.IsSignKey(k) {
@@ -702,25 +717,25 @@ func (x *explorer) step(s state, evn string) (state, bool) {
 	observed := len(nonSign) > 0 || gov.Notified(res, p.notify)
 	info := func() map[string]any {
 		return map[string]any{"group": x.g.name, "N": x.e.N, "consensus_validators": len(cons), "quorum": q, "event": evn,
-			"approvers_of_this_action_and_request": nm.Appr[p.name], "of_which_consensus": cnt,
-			"approvers_since_request_was_filed": nm.Inst[p.name], "of_which_consensus_": cntInst,
+			"approvers_since_this_request_was_filed": nm.Inst[p.name], "of_which_consensus_validators": must,
+			"approvers_of_requests_with_identical_content": nm.Cont[p.name][ck], "of_which_consensus_validators_": may,
+			"approvers_of_anything_with_this_request_id": nm.Appr[p.name], "of_which_consensus_validators__": byID,
 			"effect_observed": observed, "changed_keys": keyNames(nonSign)}
 	}
 	role := "validator"
 	if !cons[who] {
 		role = "non-validator"
 	}
-	r.Case(fmt.Sprintf("%s/%s/%s/cnt%d-q%d/effect=%v", tag, p.site, role, cnt, q, observed))
+	r.Case(fmt.Sprintf("%s/%s/%s/cnt%d-q%d/effect=%v", tag, p.site, role, must, q, observed))
 	switch {
-	case observed && !expect:
-		vs = append(vs, verdict{"effect-below-quorum/" + p.site, info()})
-	case !observed && expect:
-		vs = append(vs, verdict{"no-effect-at-quorum/" + p.site, info()})
-	case observed && expect && cntInst < q:
+	case observed && may < q && byID >= q:
 		vs = append(vs, verdict{"approvals-of-earlier-request-counted/" + p.site, info()})
+	case observed && may < q:
+		vs = append(vs, verdict{"effect-below-quorum/" + p.site, info()})
+	case !observed && must >= q:
+		vs = append(vs, verdict{"no-effect-at-quorum/" + p.site, info()})
 	}
 	if observed {
-		before, after := s.D.Map(), d2.Map()
 		bad := !p.applied(before, after)
 		for _, k := range nonSign {
 			if !p.allowed(k) {
@@ -732,6 +747,7 @@ func (x *explorer) step(s state, evn string) (state, bool) {
 		}
 		delete(nm.Appr, p.name)
 		delete(nm.Inst, p.name)
+		delete(nm.Cont, p.name)
 		if p.onEffect != nil {
 			p.onEffect(&nm)
 		}
@@ -748,6 +764,7 @@ func (x *explorer) step(s state, evn string) (state, bool) {
 			r.Class("non-validator-approval-not-counted")
 		}
 	}
+	x.requestObjectsChanged(&nm, before, after)
 	// harness sanity: the model's validator set must be the stored one
 	_, pool := gov.Pool(d2.Map())
 	obs := 0
@@ -762,6 +779,15 @@ func (x *explorer) step(s state, evn string) (state, bool) {
 	return state{D: d2, M: nm, last: vs}, true
 }
 
+// requestObjectsChanged: a request object that was created, replaced or deleted starts a new filing.
+func (x *explorer) requestObjectsChanged(nm *model, before, after map[string]string) {
+	for _, p := range x.g.pairs {
+		if p.reqKey != "" && before[p.reqKey] != after[p.reqKey] {
+			delete(nm.Inst, p.name)
+		}
+	}
+}
+
 func (x *explorer) run(depth int) mc.Stats {
 	gw := gov.NewWorld()
 	gw.Genesis(x.e.vals)
@@ -770,7 +796,7 @@ func (x *explorer) run(depth int) mc.Stats {
 	if diff := gov.SelfCheck(x.e.vals, w.Ops); diff != "" {
 		x.r.HarnessError("map-backed world diverges from the leveldb-backed polyenv world: %s", diff)
 	}
-	init := state{D: w.Dump(), M: model{Appr: map[string][]string{}, Inst: map[string][]string{}, Status: map[string]int{}}}
+	init := state{D: w.Dump(), M: model{Appr: map[string][]string{}, Inst: map[string][]string{}, Cont: map[string]map[string][]string{}, Status: map[string]int{}}}
 	// model pool = observation of the initial world (names instead of keys)
 	_, pool := gov.Pool(init.D.Map())
 	for name, a := range x.e.acct {
@@ -804,9 +830,9 @@ func main() {
 	type cfg struct{ n, level int }
 	var cfgs []cfg
 	if r.Quick() {
-		cfgs = []cfg{{4, 2}, {5, 1}, {6, 0}, {7, 0}}
+		cfgs = []cfg{{4, 2}, {5, 0}, {6, 0}, {7, 0}}
 	} else {
-		cfgs = []cfg{{4, 2}, {5, 2}, {6, 2}, {7, 1}, {8, 0}}
+		cfgs = []cfg{{4, 2}, {5, 2}, {6, 1}, {7, 1}, {8, 0}}
 	}
 	var tot mc.Stats
 	per := map[string]any{}
@@ -860,8 +886,9 @@ func main() {
 		"approver address = address derived from the transaction's signature entry (block execution does not verify signatures; C02/C14 cover that)",
 		"updateFee is vote-based (consensus_vote.CheckVotes), not a CheckConsensusSigns site: covered by C25, not here")
 	r.Finish(map[string]any{
-		"rule": "per accepted approval tx: effect (non-bookkeeping state change or Approve* event) <=> |approvers(action,request) ∩ consensus validators now| >= least k with 3k>=2N; " +
-			"effect is the request's own (record keys only); approvals given before the request object was (re)filed do not count",
+		"rule": "per accepted approval tx, q = least k with 3k>=2N over the consensus validators now: no effect (non-bookkeeping state change or Approve* event) unless " +
+			"|approvers of this action+request id while the stored request had the current content ∩ validators| >= q; effect whenever |approvers since the current request object was filed ∩ validators| >= q " +
+			"(the two coincide unless an identical request is re-filed); the effect is the request's own (its record keys only)",
 		"validator_set_sizes": ns, "alphabet_level_per_N": cfgs, "call_sites_covered": len(sites), "states": tot.States, "transitions": tot.Transitions,
 		"traces_validated_against_impl": tot.Transitions, "max_depth": tot.MaxDepth, "per_group": per,
 	})
